@@ -109,14 +109,20 @@ func c10Case(c *core.C) {
 	c.Cover("class:" + class)
 	det := map[string]any{"A": gen.Canon(A), "B": gen.Canon(B), "class": class}
 	a0, b0 := gen.Clone(A), gen.Clone(B)
+	defer func() {
+		if !proto.Equal(A, a0) || !proto.Equal(B, b0) {
+			c.Violatef("intersect-changed-its-operand", map[string]any{"A": gen.Canon(a0), "B": gen.Canon(b0)}, "after the intersections of this case an operand is no longer what it was: A %s -> %s, B %s -> %s", gen.Canon(a0), gen.Canon(A), gen.Canon(b0), gen.Canon(B))
+		}
+	}()
 	var X, Y, AA, ABU, AE, EA *sbom.NodeList
 	if guard(c, "Intersect", det, func() {
-		X = gen.Clone(A).Intersect(gen.Clone(B))
-		Y = gen.Clone(B).Intersect(gen.Clone(A))
-		AA = gen.Clone(A).Intersect(gen.Clone(A))
-		ABU = gen.Clone(A).Intersect(gen.Clone(A).Union(gen.Clone(B)))
-		AE = gen.Clone(A).Intersect(&sbom.NodeList{})
-		EA = (&sbom.NodeList{}).Intersect(gen.Clone(A))
+		// all calls work on the same operand values (compared with their snapshots at the end of the case)
+		X = A.Intersect(B)
+		Y = B.Intersect(A)
+		AA = A.Intersect(A)
+		ABU = A.Intersect(A.Union(B))
+		AE = A.Intersect(&sbom.NodeList{})
+		EA = (&sbom.NodeList{}).Intersect(A)
 	}) {
 		return
 	}
@@ -194,7 +200,7 @@ func c10Case(c *core.C) {
 	}
 	// "the same rule as union": whatever union does with a shared node (its kind included), intersection does too
 	var U *sbom.NodeList
-	if guard(c, "Union", det, func() { U = gen.Clone(A).Union(gen.Clone(B)) }) {
+	if guard(c, "Union", det, func() { U = A.Union(B) }) {
 		return
 	}
 	for id := range ids {
